@@ -46,25 +46,31 @@ for w in (4, 8, 2, 1):
              "real MAX_SIZE), variable length up to 8 MB (<= 9 trailing chunks), data_offset == 0, no allocation failure",
        replace=["hdf_get_vp_aid"], unwind=24, cex_unwind=24, defines=[f"C03_W={w}"],
        flags=["--no-malloc-may-fail"], gi_flags=["--no-malloc-may-fail"], timeout=900, trusted=PIO_TRUST,
-       tier="quick" if w == 4 else "thorough", **PIO)
+       tier="quick" if w == 4 else "thorough", **{**PIO, "objbits": 11})
 # (1) the odometer
 # per-loop unwinding (the global bound would unwind the odometer's nested loops quadratically): R = max rank
 def va_unwindset(R):
     w = "H4_NCvario_wrapped_for_contract_checking"
-    d = {f"{w}.0": R + 2, f"{w}.1": R + 2, f"{w}.2": R + 2, f"{w}.3": 7, f"{w}.4": 6,
+    w = "H4_NCvario"  # no enforced contract: the function keeps its name
+    inner, outer = (4, 2) if R == 2 else (5, 5)  # see the iteration count argument in the unit
+    d = {f"{w}.0": R + 2, f"{w}.1": R + 2, f"{w}.2": R + 2, f"{w}.3": inner + 1, f"{w}.4": outer + 1,
          "H4_NCcoordck.0": R + 2, "H4_NCcoordck.1": 4, "H4_NCcoordck.2": 2, "NC_varoffset.0": R + 2, "NCvcmaxcontig.0": R + 2}
     d.update({f"h_NCvario.{i}": 4 for i in range(5)})
     return ",".join(f"{k}:{v}" for k, v in d.items())
 
 
-def VA(R):
-    return dict(entry="h_NCvario", enforce="H4_NCvario", mode="bounded", replace=["hdf_get_vp_aid", "hdf_xdr_NCvdata"],
+def VA(R, op, flags, fl_name):
+    return dict(entry="h_NCvario", mode="bounded", replace=["hdf_get_vp_aid", "hdf_xdr_NCvdata"],
                 flags=["--no-malloc-may-fail", "--unwindset", va_unwindset(R)], gi_flags=["--no-malloc-may-fail"],
-                unwind=16, cex_unwind=16, defines=["PGIO_VARIO", f"MAXR={R}", "C03_W=4"],
+                unwind=16, cex_unwind=16, defines=["PGIO_VARIO", f"MAXR={R}", "C03_W=4", f"VA_OP={op}", f"VA_FLAGS={flags}"],
                 bound=f"rank 1..{R}, extents <= 4, edges 0..3, start -1..5 (record writes start at most one record beyond the end), "
-                      "numrecs <= 4, element size 4; fixed-size and record variables, read and write",
-                trusted=PIO_TRUST + ["hdf_xdr_NCvdata (run logger: contract preconditions are the checks)"], **PIO)
+                      f"numrecs <= 4, element size 4; fixed-size and record variables; {'write' if op == 0 else 'read'}, file flags {fl_name}",
+                trusted=PIO_TRUST + ["hdf_xdr_NCvdata (run logger: contract preconditions are the checks)"], **{**PIO, "objbits": 11})
 
 
-ob("NCvario_r2", "C03", timeout=900, **VA(2))
-ob("NCvario_r3", "C03", timeout=3000, tier="thorough", **VA(3))
+# XDR_ENCODE == 0, XDR_DECODE == 1; NC_NOFILL == 0x100
+ob("NCvario_r2_write", "C03", timeout=900, **VA(2, 0, "0x100", "NC_NOFILL"))
+ob("NCvario_r2_read", "C03", timeout=900, **VA(2, 1, "0", "0"))
+ob("NCvario_r2_write_fill", "C03", timeout=1500, tier="thorough", **VA(2, 0, "0", "0 (fill mode on)"))
+ob("NCvario_r3_write", "C03", timeout=3000, tier="thorough", **VA(3, 0, "0x100", "NC_NOFILL"))
+ob("NCvario_r3_read", "C03", timeout=3000, tier="thorough", **VA(3, 1, "0", "0"))
